@@ -14,7 +14,7 @@ theorem C16_remove_only_missing (db : List Row) (t : Tree) (inp : Input) :
     (updRemove db t inp).Sublist db ∧
     (∀ r ∈ db, (lookup t r.path).isSome → r ∈ updRemove db t inp) ∧
     (∀ r ∈ db, r ∉ updRemove db t inp → (lookup t r.path).isNone ∧ concerns inp r = true) := by
-  sorry
+  exact updRemove_spec db t inp
 
 /-- Append mode never alters or duplicates an existing row: the old database is a prefix, every
 appended row is the fresh row of a walked file whose path was absent, each such file once. -/
@@ -24,7 +24,7 @@ theorem C16_append_once (E : Env) (db : List Row) (t : Tree) (inp : Input)
       ((db ++ new).map (·.path)).Nodup ∧
       (∀ r, r ∈ new ↔ ∃ f ∈ t, r = rowOf E f ∧ f.path ∉ db.map (·.path) ∧
           (match inp with | .folder => True | .file n => f.path = n)) := by
-  sorry
+  exact updAppend_spec E db t inp hdb ht
 
 /-- every row of an existing file describes that file (path, hashes, size, extension) -/
 def Consistent (E : Env) (s : State) : Prop :=
@@ -43,7 +43,7 @@ def Admissible (E : Env) : State → List Op → Prop
 /-- A freshly generated database is consistent with its tree. -/
 theorem C16_initial_consistent (E : Env) (t : Tree) (ht : (t.map (·.path)).Nodup) :
     Consistent E { tree := t, db := genDb E t } := by
-  sorry
+  exact genDb_consistent E t ht
 
 /-- Convergence: after any admissible history, a final append+remove update on the folder leaves
 exactly the rows (path, hashes, size, extension) that generating from scratch on the current tree
@@ -53,7 +53,25 @@ theorem C16_converge (E : Env) (s0 : State) (ops : List Op) (h0 : Consistent E s
     let s := run E s0 (ops ++ [.update true true .folder])
     (s.db.map (·.path)).Nodup ∧
     ∀ x, x ∈ s.db.map core ↔ x ∈ (genDb E s.tree).map core := by
-  sorry
+  have hrun : ∀ (ops : List Op) (s0 : State), Consistent E s0 → Admissible E s0 ops →
+      Consistent E (run E s0 ops) := by
+    intro ops
+    induction ops with
+    | nil => intro s0 h _; exact h
+    | cons op ops ih =>
+      intro s0 h ha
+      rw [run_cons]
+      refine ih _ (consistent_step E s0 op h ?_) ha.2
+      cases op
+      · exact ha.1
+      · trivial
+      · trivial
+  intro s
+  have hs : s = step E (run E s0 ops) (.update true true .folder) :=
+    run_append_singleton E s0 ops _
+  obtain ⟨ht, hnd, hx⟩ := converge_final E (run E s0 ops).tree (run E s0 ops).db (hrun ops s0 h0 hadm)
+  rw [hs]
+  exact ⟨hnd, fun x => by rw [hx x, ht]⟩
 
 /-- Why admissibility is needed: delete, re-create with other content while the row survives. -/
 theorem C16_stale_witness :
@@ -61,6 +79,6 @@ theorem C16_stale_witness :
     let s0 : State := { tree := [⟨"a", [1], 0⟩], db := genDb E [⟨"a", [1], 0⟩] }
     let s := run E s0 [.delete "a", .add ⟨"a", [2], 1⟩, .update true true .folder]
     s.db.map core ≠ (genDb E s.tree).map core := by
-  sorry
+  decide
 
 end Pff.Rfigc
